@@ -1095,6 +1095,24 @@ class VF:
 
         if nxt == lh:
             return init
+        if nxt[0] == 'tuple' and init[0] == 'tuple' and len(nxt[1]) == len(init[1]):
+            # tuple accumulator (e.g. unzip by fold): close component-wise
+            comps = []
+            for j, (nj, ij) in enumerate(zip(nxt[1], init[1])):
+                pj = T.proj(lh, j)
+                hj = T.sym('lhc%d:%d' % (ls.uid if hasattr(ls, 'uid') else 0, j))
+                nj2 = T.subst(nj, {pj: hj})
+                if any(x is lh for x in T.subterms(nj2)):
+                    return None
+                sub = type('L', (), {})()
+                sub.lh = {None: hj}
+                sub.lh.update({k: v for k, v in ls.lh.items() if v is not lh})
+                sub.n, sub.var, sub.exits = ls.n, ls.var, ls.exits
+                cj = self.close_form(sub, hj, nj2, ij)
+                if cj is None:
+                    return None
+                comps.append(cj)
+            return T.tup(*comps)
         d = T.sub(nxt, lh)
         if free(d) and nxt[0] in ('poly', 'num', 'app', 'sym', 'ite'):
             if T.is_app(nxt) and not nxt[0] == 'poly':
